@@ -330,6 +330,7 @@ func OracleC02(ex *Exec) *Obs {
 	failed := ex.Res.Err != nil
 	// protocol-defined debits and credits, from the tracer's view of successful non-reverted operations
 	debits, refunds := new(big.Int), new(big.Int)
+	wrapCarried, wrapDebits := new(big.Int), new(big.Int)
 	exact := true
 	c05 := OracleC05(ex)
 	if len(c05.Findings) > 0 {
@@ -356,8 +357,18 @@ func OracleC02(ex *Exec) *Obs {
 				default:
 					want = r.Args[2].ToBig()
 				}
-				if want.Cmp(new(big.Int).Sub(r.BalBefore, r.BalAfter)) != 0 {
+				if d := new(big.Int).Sub(r.BalBefore, r.BalAfter); want.Cmp(d) != 0 {
 					exact = false
+					if v := r.Args[2].ToBig(); v.Cmp(d) > 0 {
+						// the operation itself carried more away than it debited (C05's wrong-debit finding seen from C02)
+						wrapCarried.Add(wrapCarried, v)
+						wrapDebits.Add(wrapDebits, d)
+						fork := "post-sdrefund-fork"
+						if ex.Case.PTN < params.SelfDestructRefundForkBlock {
+							fork = "pre-sdrefund-fork"
+						}
+						o.bad("etx-value-without-debit:"+k+":uint256-wraparound:"+fork, "%s with value %s debited only %s and reported success", k, v, d)
+					}
 				}
 			}
 		}
@@ -391,6 +402,20 @@ func OracleC02(ex *Exec) *Obs {
 	cls := "success"
 	if failed {
 		cls = "failed"
+	}
+	// value carried away by the ETXs the transaction actually returned must have been debited from
+	// some balance (lockup-funded ETX kinds draw on the lockup ledger, not on balances)
+	if !failed {
+		carried := new(big.Int)
+		for _, etx := range ex.Res.Etxs {
+			if t := etx.EtxType(); t == types.DefaultType || t == types.ConversionType {
+				carried.Add(carried, etx.Value())
+			}
+		}
+		carried.Sub(carried, wrapCarried)
+		if carried.Cmp(new(big.Int).Sub(debits, wrapDebits)) > 0 {
+			o.bad("etx-value-without-debit", "returned ETXs carry %s away, balances were debited %s for emitted ETXs", carried, debits)
+		}
 	}
 	if sumA.Cmp(expected) > 0 {
 		o.bad("value-created", "sum of balances after %s > before %s - gas %s - etx debits %s + rent refunds %s (excess %s)", sumA, sumB, gasCost, debits, refunds, new(big.Int).Sub(sumA, expected))
